@@ -1,1 +1,261 @@
-/- property theorems for C02 (filled in below) -/
+/-
+C02 — every isometry the library builds preserves the Minkowski form and distances.
+Only property theorems and non-vacuity examples live here; helper lemmas are in
+`GT.Lemmas.Isometry`, `GT.Lemmas.GramSchmidt`.  Models: `GT.Model.Isometry`,
+`GT.Model.GramSchmidt`.
+
+`IsIso M` (`M J Mᵀ = J` for the stored row matrix `M`) is equivalent to "`x ↦ xM` preserves
+the Minkowski form" (`isIso_iff_preserves`).  Angles enter as `(c,s)` with `c²+s²=1`,
+translation lengths as `u ≠ 0`; `CharZero K` is needed only where the code divides by 2.
+-/
+import GT.Lemmas.Isometry
+import GT.Lemmas.FrameCompletion
+import GT.Model.LinAlgQ
+import GT.Properties.C01
+
+open Finset BigOperators Matrix
+
+set_option linter.unusedSectionVars false
+
+namespace GT.C02
+open GT GT.Iso GT.GS GT.LinAlgQ
+
+variable {K : Type*} [Field K] {n m : ℕ}
+
+/-! ## the isometries form a group under the library's `@` and `.inv()` -/
+
+/-- `hyperbolic.identity` -/
+theorem one_isIso : IsIso (1 : Matrix (Fin (n + 1)) (Fin (n + 1)) K) := isIso_one
+
+/-- `A @ B` -/
+theorem compose_isIso {A B : Matrix (Fin (n + 1)) (Fin (n + 1)) K} (hA : IsIso A) (hB : IsIso B) :
+    IsIso (compose A B) := isIso_mul hB hA
+
+/-- `A.inv()`; moreover the inverse is `J Aᵀ J` -/
+theorem inv_isIso {A : Matrix (Fin (n + 1)) (Fin (n + 1)) K} (hA : IsIso A) :
+    IsIso (tinv A) ∧ tinv A = minkJ n * Aᵀ * minkJ n ∧ A * tinv A = 1 := by
+  refine ⟨isIso_inv hA, isIso_inv_eq hA, ?_⟩
+  unfold tinv; rw [isIso_inv_eq hA]; exact isIso_mul_inv hA
+
+/-- `M J Mᵀ = J ⇒ Mᵀ J M = J`: the row-matrix and column-matrix conventions agree, so
+constructors called with `column_vectors=True` need no separate treatment -/
+theorem transpose_isIso {A : Matrix (Fin (n + 1)) (Fin (n + 1)) K} (hA : IsIso A) : IsIso Aᵀ :=
+  isIso_transpose hA
+
+/-- closure under words: every finite `l₁ @ l₂ @ … @ l_k` whose letters are isometries or
+`.inv()` of isometries is an isometry (induction on the word, any length) -/
+theorem word_isIso (w : List (Matrix (Fin (n + 1)) (Fin (n + 1)) K × Bool))
+    (h : ∀ l ∈ w, IsIso l.1) : IsIso (evalWord (w.map letterMat)) := by
+  unfold evalWord
+  suffices H : ∀ (acc : Matrix (Fin (n + 1)) (Fin (n + 1)) K), IsIso acc →
+      IsIso ((w.map letterMat).foldl (fun acc l => compose acc l) acc) from H 1 isIso_one
+  induction w with
+  | nil => intro acc ha; simpa using ha
+  | cons l w ih =>
+    intro acc ha
+    simp only [List.map_cons, List.foldl_cons]
+    apply ih (fun l' hl' => h l' (List.mem_cons_of_mem _ hl'))
+    apply compose_isIso ha
+    have hl := h l (List.mem_cons_self ..)
+    unfold letterMat
+    split_ifs
+    · exact isIso_inv hl
+    · exact hl
+
+/-- the materialising evaluator run by the driver denotes the same matrix -/
+theorem evalWordD_eq_evalWord {p : ℕ} {K : Type} [Field K] [Inhabited K] (w : List (DMat p p K)) :
+    (evalWordD w).toMatrix = evalWord (w.map DMat.toMatrix) := evalWordD_toMatrix w
+
+/-- the driver's `.inv()` / `utils.invert`: a Gauss–Jordan candidate is returned only with the
+exact certificate `M * B = 1`, which makes it Mathlib's inverse -/
+theorem certInv_sound {p : ℕ} {M B : Matrix (Fin p) (Fin p) ℚ} (h : certInv M = some B) : B = tinv M :=
+  certInv_spec h
+
+/-! ## every constructor returns an isometry -/
+
+/-- `Isometry.elliptic(n, O)` for orthogonal `O` (either value of `column_vectors`) -/
+theorem elliptic_isIso {O : Matrix (Fin n) (Fin n) K} (h : O * Oᵀ = 1) :
+    IsIso (elliptic O) ∧ IsIso (ellipticRow O) :=
+  ⟨isIso_transpose (ellipticMat_isIso h), ellipticMat_isIso h⟩
+
+/-- `Isometry.standard_rotation(θ, dimension = m+2)` with `(c,s) = (cos θ, sin θ)` -/
+theorem rotation_isIso {c s : K} (h : c ^ 2 + s ^ 2 = 1) :
+    IsIso (rotation c s : Matrix (Fin (m + 3)) (Fin (m + 3)) K) := by
+  apply (elliptic_isIso _).1
+  rw [block2_transpose, block2_mul, rotation2_orth h, block2_one]
+
+/-- `Isometry.standard_loxodromic(m+1, u)`, `u ≠ 0` -/
+theorem loxodromic_isIso [CharZero K] {u : K} (hu : u ≠ 0) :
+    IsIso (loxodromic u : Matrix (Fin (m + 2)) (Fin (m + 2)) K) :=
+  isIso_transpose (loxodromicMat_isIso hu)
+
+/-- the explicit matrices standing for `utils.invert` of the two constant matrices are the
+inverses -/
+theorem const_inverses [CharZero K] :
+    (loxBinv : Matrix (Fin (m + 2)) _ K) = loxB⁻¹ ∧ (killingConjInv : Matrix _ _ K) = killingConj⁻¹ :=
+  ⟨loxBinv_eq_inv, killingConjInv_eq_inv⟩
+
+/-- `lie.sl2_to_so21(A)` and `hyperbolic.sl2_iso(A)` for `det A = ±1` -/
+theorem sl2ToSo21_isIso [CharZero K] (A : Matrix (Fin 2) (Fin 2) K)
+    (hd : A.det = 1 ∨ A.det = -1) : IsIso (sl2ToSo21 A) ∧ IsIso (sl2Iso A) := by
+  have h2 : (A 0 0 * A 1 1 - A 0 1 * A 1 0) ^ 2 = 1 := by
+    rw [Matrix.det_fin_two] at hd
+    rcases hd with h | h <;> rw [h] <;> norm_num
+  have key : IsIso (sl2ToSo21 A) := by
+    rw [isIso_iff_rows, sl2ToSo21_eq]
+    intro i k
+    have e2 : (Fin.cons (-1) (fun _ => 1) : Fin 3 → K) 2 = 1 := rfl
+    fin_cases i <;> fin_cases k <;>
+      simp [mink, dot, Fin.sum_univ_succ, Fin.tail, minkJ, minkDiag, e2] <;>
+      first | ring1 | linear_combination h2 | linear_combination (-1 : K) * h2
+  exact ⟨key, isIso_transpose key⟩
+
+/-- `Subspace.reflection_across` for hyperplane data `D` (row 0 = normal `d₀`, non-null; the
+other rows a basis of its Minkowski-orthogonal complement; `D` invertible): the result is the
+closed-form reflection in `d₀` — so it does not depend on the basis the SVD chose —, it is an
+involutive isometry, it negates `d₀` and fixes the other rows -/
+theorem reflectAcross_spec (D : Matrix (Fin (n + 1)) (Fin (n + 1)) K) (hD : IsUnit D.det)
+    (hq : mink (D 0) (D 0) ≠ 0) (horth : ∀ i : Fin n, mink (D i.succ) (D 0) = 0) :
+    reflectAcross D = reflClosed (D 0) ∧ IsIso (reflectAcross D) ∧
+      reflectAcross D * reflectAcross D = 1 ∧
+      applyRow (reflectAcross D) (D 0) = -D 0 ∧
+      ∀ i : Fin n, applyRow (reflectAcross D) (D i.succ) = D i.succ := by
+  have hcl := reflectAcross_eq_closed D hD hq horth
+  refine ⟨hcl, ?_, ?_, ?_, ?_⟩
+  · rw [hcl]; exact reflClosed_isIso _ hq
+  · rw [hcl]; exact reflClosed_sq _ hq
+  · rw [hcl]; exact reflClosed_apply_self _ hq
+  · intro i; rw [hcl]; exact reflClosed_apply_orth _ _ (horth i)
+
+/-! ## the SVD-based constructors, under the kernel contract
+
+`utils.kernel` (SVD) is a contract parameter `ker`: what is assumed of it is that its rows are
+Minkowski-orthogonal to the partial frame (`hker`) and in general position with it (`hnz`:
+Gram–Schmidt never produces the zero vector, i.e. all rows are linearly independent) and that
+there are enough of them to fill the matrix (`hlen`).  The exact residual of each of these
+assumptions is evaluated by the correspondence on every captured LAPACK call. -/
+
+section frames
+variable [LinearOrder K] [IsStrictOrderedRing K] {r : K → K}
+
+/-- `utils.find_isometry(minkowski, x :: rest)` with `x` timelike: `M J Mᵀ = J` -/
+theorem findIsometry_isIso (hr : IsSqrt r) (x : Fin (n + 1) → K) (rest ker : List (Fin (n + 1) → K))
+    (hx : mink x x < 0)
+    (hker : ∀ p ∈ x :: rest, ∀ k ∈ ker, mink p k = 0)
+    (hnz : ∀ u ∈ gs (minkJ n) (x :: rest) ++ gs (minkJ n) ker, u ≠ 0)
+    (hlen : (findIsometry r (minkJ n) (x :: rest) ker).length = n + 1) :
+    IsIso (rowsMatrix (findIsometry r (minkJ n) (x :: rest) ker) hlen) :=
+  findIsometry_isIso' hr x rest ker hx hker hnz hlen
+
+/-- `Point.origin_to` for an interior point `x` (any representative) -/
+theorem originTo_isIso (hr : IsSqrt r) (x : Fin (n + 1) → K) (ker : List (Fin (n + 1) → K)) (hx : mink x x < 0)
+    (hker : ∀ p ∈ [normalizeVec r (minkJ n) x], ∀ k ∈ ker, mink p k = 0)
+    (hnz : ∀ u ∈ gs (minkJ n) [normalizeVec r (minkJ n) x] ++ gs (minkJ n) ker, u ≠ 0)
+    (hlen : (originTo r x ker).length = n + 1) : IsIso (rowsMatrix (originTo r x ker) hlen) :=
+  findIsometry_isIso' hr _ [] ker (normalizeVec_timelike hr x hx) hker hnz hlen
+
+/-- `TangentVector.origin_to` for a tangent vector `v` at an interior point `x` -/
+theorem tangentOriginTo_isIso (hr : IsSqrt r) (x v : Fin (n + 1) → K) (ker : List (Fin (n + 1) → K))
+    (hx : mink x x < 0)
+    (hker : ∀ p ∈ [normalizeVec r (minkJ n) x, normalizeVec r (minkJ n) v], ∀ k ∈ ker, mink p k = 0)
+    (hnz : ∀ u ∈ gs (minkJ n) [normalizeVec r (minkJ n) x, normalizeVec r (minkJ n) v] ++ gs (minkJ n) ker, u ≠ 0)
+    (hlen : (tangentOriginTo r x v ker).length = n + 1) : IsIso (rowsMatrix (tangentOriginTo r x v ker) hlen) :=
+  findIsometry_isIso' hr _ _ ker (normalizeVec_timelike hr x hx) hker hnz hlen
+
+/-- (repaired) `hyperbolic.spacelike_to(v)` for spacelike `v`: the first row of the completed
+frame is timelike, so the result is an isometry -/
+theorem spacelikeTo_isIso (hr : IsSqrt r) (v : Fin (n + 1) → K) (ker : List (Fin (n + 1) → K)) (hv : 0 < mink v v)
+    (hker : ∀ p ∈ spacelikeFrame r v, ∀ k ∈ ker, mink p k = 0)
+    (hnz : ∀ u ∈ gs (minkJ n) (spacelikeFrame r v) ++ gs (minkJ n) ker, u ≠ 0)
+    (hlen : (spacelikeTo r v ker).length = n + 1) : IsIso (rowsMatrix (spacelikeTo r v ker) hlen) := by
+  obtain ⟨t, rest, hfr, ht⟩ := spacelikeFrame_timelike hr v hv
+  unfold spacelikeTo at hlen ⊢
+  revert hlen hker hnz
+  rw [hfr]
+  intro hker hnz hlen
+  exact findIsometry_isIso' hr t rest ker ht hker hnz hlen
+
+/-- `TangentVector.isometry_to(other)` = `other.origin_to() @ self.origin_to().inv()`
+(tangent-vector transport): an isometry as soon as the two `origin_to` results are -/
+theorem isometryTo_isIso {A B : Matrix (Fin (n + 1)) (Fin (n + 1)) K} (hA : IsIso A) (hB : IsIso B) :
+    IsIso (compose B (tinv A)) := compose_isIso hB (isIso_inv hA)
+
+/-- `force_oriented=True` (`make_orientation_preserving`): still an isometry, now with `det > 0` -/
+theorem makeOriented_isIso {M : Matrix (Fin (n + 1)) (Fin (n + 1)) K} (h : IsIso M) :
+    IsIso (makeOriented M) ∧ 0 < (makeOriented M).det := by
+  have hdet : M.det ≠ 0 := fun h0 => by have := isIso_det_sq h; rw [h0] at this; simp at this
+  exact makeOriented_spec' (minkJ n) M (minkDiag n) h hdet
+
+/-- `CoxeterGroup.hyperbolic_rep`: if `ρ(g)` preserves the cosine form `B` (C08) and
+`diagonalize_form(B)` returned `(W, Winv)` with `Wᵀ B W = J`, `W Winv = 1` (C18), the stored
+matrix `(Winv ρ(g) W)ᵀ` is an isometry -/
+theorem hyperbolicRep_isIso (B W Winv rho : Matrix (Fin (n + 1)) (Fin (n + 1)) K)
+    (hB : rhoᵀ * B * rho = B) (hW : Wᵀ * B * W = minkJ n) (hinv : W * Winv = 1) :
+    IsIso (hyperbolicRepMat W Winv rho) := hyperbolicRepMat_isIso B W Winv rho hB hW hinv
+
+end frames
+
+/-! ## what preserving the form gives -/
+
+/-- `IsIso M` says exactly that `x ↦ xM` preserves the Minkowski form -/
+theorem isIso_iff_preserves (M : Matrix (Fin (n + 1)) (Fin (n + 1)) K) :
+    IsIso M ↔ ∀ x y, mink (applyRow M x) (applyRow M y) = mink x y := isIso_iff_preserves' M
+
+/-- interior / ideal / exterior points stay interior / ideal / exterior -/
+theorem type_preserved [LinearOrder K] [IsStrictOrderedRing K]
+    {M : Matrix (Fin (n + 1)) (Fin (n + 1)) K} (h : IsIso M) (x : Fin (n + 1) → K) :
+    (mink (applyRow M x) (applyRow M x) < 0 ↔ mink x x < 0) ∧
+    (mink (applyRow M x) (applyRow M x) = 0 ↔ mink x x = 0) ∧
+    (0 < mink (applyRow M x) (applyRow M x) ↔ 0 < mink x x) := by
+  rw [(isIso_iff_preserves M).1 h]; simp
+
+/-- the argument of `arccosh` in `Point.distance` is unchanged, for *all* pairs of vectors and
+any supplied root function (no hypothesis on `r` is needed) -/
+theorem coshDist_invariant [LinearOrder K] [IsStrictOrderedRing K] (r : K → K)
+    {M : Matrix (Fin (n + 1)) (Fin (n + 1)) K} (h : IsIso M) (x y : Fin (n + 1) → K) :
+    coshDistClamped r (applyRow M x) (applyRow M y) = coshDistClamped r x y := by
+  have hp := (isIso_iff_preserves M).1 h
+  unfold coshDistClamped
+  rw [coshDist_eq_scaled, coshDist_eq_scaled, hp, hp, hp]
+
+/-- hyperbolic distance is invariant (ℝ, `Real.sqrt`, `Real.arcosh`) -/
+theorem dist_invariant {M : Matrix (Fin (n + 1)) (Fin (n + 1)) ℝ} (h : IsIso M)
+    (x y : Fin (n + 1) → ℝ) : C01.hdist (applyRow M x) (applyRow M y) = C01.hdist x y := by
+  unfold C01.hdist; rw [coshDist_invariant Real.sqrt h]
+
+/-! ## non-vacuity: concrete instances of the hypotheses -/
+
+/-- a rational rotation `(c,s) = (3/5, 4/5)` -/
+example : ((3 : ℚ) / 5) ^ 2 + (4 / 5) ^ 2 = 1 := by norm_num
+
+/-- an `SL(2,ℚ)` element and one of determinant `−1` -/
+example : (!![2, 3; 1, 2] : Matrix (Fin 2) (Fin 2) ℚ).det = 1 ∨ (!![2, 3; 1, 2] : Matrix (Fin 2) (Fin 2) ℚ).det = -1 := by
+  left; rw [Matrix.det_fin_two]; norm_num
+example : (!![2, 3; 1, 1] : Matrix (Fin 2) (Fin 2) ℚ).det = 1 ∨ (!![2, 3; 1, 1] : Matrix (Fin 2) (Fin 2) ℚ).det = -1 := by
+  right; rw [Matrix.det_fin_two]; norm_num
+
+/-- a non-trivial isometry exists: the loxodromic with `u = 2` is not the identity -/
+example : IsIso (loxodromic (2 : ℚ) : Matrix (Fin 3) (Fin 3) ℚ) ∧
+    (loxodromic (2 : ℚ) : Matrix (Fin 3) (Fin 3) ℚ) ≠ 1 := by
+  refine ⟨loxodromic_isIso (by norm_num), fun h => ?_⟩
+  have := congrFun (congrFun h 0) 1
+  revert this
+  simp [loxodromic, loxodromicMat_eq, block2, split2_zero, split2_one]
+  norm_num
+
+/-- hyperplane data in `H²` satisfying the hypotheses of `reflectAcross_spec`:
+normal `e₁`, ideal points `(1,0,1)`, `(1,0,−1)` -/
+example : IsUnit (!![0, 1, 0; 1, 0, 1; 1, 0, -1] : Matrix (Fin 3) (Fin 3) ℚ).det ∧
+    mink (![0, 1, 0] : Fin 3 → ℚ) ![0, 1, 0] ≠ 0 ∧ mink (![1, 0, 1] : Fin 3 → ℚ) ![0, 1, 0] = 0 := by
+  refine ⟨?_, ?_, ?_⟩
+  · rw [Matrix.det_fin_three]; simp
+  · simp [mink, dot, Fin.sum_univ_succ, Fin.tail]
+  · simp [mink, dot, Fin.sum_univ_succ, Fin.tail]
+
+/-- the hypotheses of `findIsometry_isIso` hold for the frame `x = (5/3, 4/3, 0)` with kernel
+basis `(4/5, 1, 0), (0, 0, 1)` -/
+example : mink (![5/3, 4/3, 0] : Fin 3 → ℚ) ![5/3, 4/3, 0] < 0 ∧
+    mink (![5/3, 4/3, 0] : Fin 3 → ℚ) ![4/5, 1, 0] = 0 ∧ mink (![5/3, 4/3, 0] : Fin 3 → ℚ) ![0, 0, 1] = 0 := by
+  refine ⟨?_, ?_, ?_⟩ <;> simp [mink, dot, Fin.sum_univ_succ, Fin.tail] <;> norm_num
+
+end GT.C02
